@@ -1610,3 +1610,16 @@ func allocStableAfter(a *ssa.Alloc, mc *ssa.MakeClosure) bool {
 	}
 	return true
 }
+
+// needPow2 declares pow2 : Int -> Int with pow2(s) = 2^s for 0 <= s <= 63 (0 elsewhere).
+func (v *Verifier) needPow2() {
+	if v.specDone["__pow2"] {
+		return
+	}
+	v.specDone["__pow2"] = true
+	body := "0"
+	for i := 63; i >= 0; i-- {
+		body = fmt.Sprintf("(ite (= s %d) %s %s)", i, pow2(int64(i)), body)
+	}
+	v.specDefs = append(v.specDefs, "(define-fun pow2 ((s Int)) Int "+body+")")
+}
